@@ -97,6 +97,36 @@ def viol(oracle, sig, detail):
     return {'oracle': oracle, 'sig': [str(s) for s in sig], 'detail': detail}
 
 
+_EXC = []
+
+
+def exception_classes(scared, user_bug):
+    """Every builtin Exception subclass that can be built without arguments (MemoryError, RecursionError, OSError subclasses, Warning
+    subclasses ... - not KeyboardInterrupt / SystemExit / GeneratorExit, which are not Exceptions), numpy's LinAlgError, and user-defined
+    subclasses incl. one of ResynchroError; in a fixed (name) order."""
+    if not _EXC:
+        import builtins
+        out = []
+        for name in sorted(vars(builtins)):
+            c = getattr(builtins, name)
+            if isinstance(c, type) and issubclass(c, Exception):
+                try:
+                    c()
+                except Exception:
+                    continue
+                out.append(c)
+        out.append(np.linalg.LinAlgError)
+
+        class NoSyncHere(scared.ResynchroError):
+            pass
+
+        class BadValue(ValueError):
+            pass
+        out += [NoSyncHere, BadValue]
+        _EXC.extend(out)
+    return _EXC + [user_bug]
+
+
 def ret_bias(scn):
     """Offset added to the returned data; only values the returned dtype can hold."""
     b = scn.get('ret_bias') or 0
@@ -145,10 +175,14 @@ def execute(scn):
             raise scared.ResynchroError(*[('no sync',), (), ('a', 'b')][(i + scn['seed']) % 3])
         # any Exception subclass, with any payload (no argument, one string, several, a non-string): code in the rejection path that looks at
         # the exception object must cope with all of them
-        classes = [ZeroDivisionError, TypeError, ValueError, UserBug, IndexError, OSError, AssertionError, KeyError, RuntimeError, AttributeError,
-                   StopIteration, LookupError, UnicodeError, NotImplementedError]
+        classes = exception_classes(scared, UserBug)
         K = classes[(i * 7 + scn['seed'] + 'etvk'.index(p)) % len(classes)]
-        raise K(*[(), ('user bug',), ('a', 2), (3,), (None,)][(i + scn['seed']) % 5])
+        args = [(), ('user bug',), ('a', 2), (3,), (None,)][(i + scn['seed']) % 5]
+        try:
+            exc = K(*args)
+        except Exception:
+            exc = K()
+        raise exc
 
     scratch = tempfile.mkdtemp(prefix='verif_sync_', dir=SCRATCH_ROOT)
     fn = os.path.join(scratch, 'out.ets')
